@@ -3,8 +3,8 @@ import PintModel.Model.Load
 namespace Driver.C01
 open Lean Pint.Load
 
-def svOf (s : String) : SV := match s with | "absent" => .absent | "null" => .null | "empty" => .empty | "val" => .val | _ => .coll
-def dvOf (s : String) : DV := match s with | "absent" => .absent | "null" => .null | "valid" => .valid | "zero" => .zero | "invalid" => .invalid | _ => .coll
+def svOf (s : String) : SV := match s with | "absent" => .absent | "null" => .null | "empty" => .empty | "val" => .val | "other" => .other | _ => .coll
+def dvOf (s : String) : DV := match s with | "absent" => .absent | "null" => .null | "valid" => .valid | "zero" => .zero | "invalid" => .invalid | "otherValid" => .otherValid | "otherZero" => .otherZero | "otherInvalid" => .otherInvalid | _ => .coll
 def lvOf (s : String) : LV := match s with | "absent" => .absent | "null" => .null | "int" => .int | _ => .other
 def mkOf (s : String) : MKind := match s with | "absent" => .absent | "null" => .null | "map" => .map | _ => .notMap
 
@@ -13,7 +13,7 @@ def boo (j : Json) (f : String) : Bool := (j.getObjValD f).getBool?.toOption.get
 
 def mapOf (j : Json) : MapV :=
   { kind := mkOf (str j "kind"), dupKey := boo j "dupKey", collValue := boo j "collValue", badName := boo j "badName",
-    metricName := boo j "metricName", badValue := boo j "badValue", badTemplate := boo j "badTemplate", nonEmpty := boo j "nonEmpty" }
+    metricName := boo j "metricName", badValue := boo j "badValue", badTemplate := boo j "badTemplate", nonEmpty := boo j "nonEmpty", otherValue := boo j "otherValue" }
 
 def ruleOf (j : Json) : RuleD :=
   { isNull := boo j "isNull", isMap := boo j "isMap", record := svOf (str j "record"), alert := svOf (str j "alert"), expr := svOf (str j "expr"),
